@@ -57,6 +57,8 @@ class Side:
                 self._paths[k] = (None, str(e))
             except RecursionError:
                 self._paths[k] = (None, "recursion")
+            except Exception as e:      # an IR shape the evaluator does not know: unanalysed, never a crash
+                self._paths[k] = (None, "%s: %s" % (type(e).__name__, e))
         return self._paths[k]
 
     def live_paths(self, fn):
@@ -365,6 +367,31 @@ def mentions_operand(e):
     return False
 
 
+class Capped:
+    """reports the first `cap` violations of a rule in full and folds the rest into one (a broken shared helper
+    makes every method that inlines it fail; the output of bin/check stays short)"""
+
+    def __init__(self, r, cap=12):
+        self.r = r
+        self.cap = cap
+        self.seen = set()
+        self.more = []
+
+    def violation(self, key, msg, where=None):
+        if key in self.seen:
+            return
+        self.seen.add(key)
+        if len(self.seen) <= self.cap:
+            self.r.violation(key, msg, where)
+        else:
+            self.more.append(key)
+
+    def flush(self):
+        if self.more:
+            self.r.violation("further-violations", "%d further violations of the same rule (a shared helper is probably "
+                                                   "broken): %s" % (len(self.more), " ".join(self.more)[:1500]))
+
+
 # ---------------------------------------------------------------------------------------------------------
 # R1
 # ---------------------------------------------------------------------------------------------------------
@@ -445,6 +472,18 @@ def check_path(side, fn, path, d):
             else:
                 out.append((bit, "%s the ModRM/SIB bytes come from address `%s` but %s.%s is %s" % (
                     where, A, pname, bit, r_bool(bv) if not isinstance(bv, bool) else "constant 1")))
+    # every register/address operand must reach a field (otherwise the requested operand is silently ignored)
+    if path.nbytes():
+        used = {d.regf}
+        if d.rmf is not None:
+            used.add(d.rmf[1])
+        if d.vvvv is not None and d.vvvv[0] == "reg":
+            used.add(d.vvvv[1])
+        regs, addrs = method_sig(fn, side.P)
+        for nm in regs + addrs:
+            if nm not in used and nm not in K.pinned:
+                out.append(("operand(%s)" % nm, "%s operand `%s` reaches no ModRM/SIB/opcode-register/VEX.vvvv field: the "
+                                                "instruction is encoded without it (%s)" % (where, nm, r_path(path))))
     return out
 
 
@@ -465,6 +504,7 @@ def run_r1(chk, sides):
     r = chk.rule("C07.R1", "per instruction method and path: the register feeding ModRM.reg/ModRM.rm/opcode+r is the one "
                            "feeding REX.R/REX.B (VEX.R/B); an Address supplies ModRM/SIB bytes and X/B bits together")
     analysed = {}
+    cap = Capped(r)
     for side in sides:
         P = side.P
         ok = r.anchor("%s:AssemblerX64::emit_rex" % side.tag, P.fns.get("AssemblerX64::emit_rex"))
@@ -490,13 +530,16 @@ def run_r1(chk, sides):
             except Unanalysable as e:
                 unan.append("%s (%s)" % (fn.name, e))
                 continue
+            except Exception as e:
+                unan.append("%s (%s: %s)" % (fn.name, type(e).__name__, e))
+                continue
             n_ok += 1
             analysed[(side.tag, fn.name)] = decs
             flows = set()
             for (p, d) in decs:
                 n_paths += 1
                 for (field, msg) in check_path(side, fn, p, d):
-                    r.violation("%s:%s" % (fn.path, field), msg, fn.where)
+                    cap.violation("%s:%s" % (fn.path, field), msg, fn.where)
                 flows.add((d.prefix, d.regf, d.rmf))
             r.instance("%s:%s" % (side.tag, fn.name), nontrivial=has_op,
                        sample={"method": fn.path, "paths": len(decs),
@@ -509,6 +552,7 @@ def run_r1(chk, sides):
             r.observe("unanalysed: %s %s" % (side.tag, u))
         r.observe("%s: %d instruction methods, %d with a register/address operand, %d analysed (%d paths), %d unanalysed"
                   % (tagname, n_all, n_op, n_ok, n_paths, len(unan)))
+    cap.flush()
     return analysed
 
 
@@ -650,7 +694,7 @@ def run_r2(chk, sides):
                                                  "may follow it" if len(after) > 1 else "placeholder and patch widths differ"),
                                         fn.where)
         r.floor("%s jump emitters with a backward branch" % tagname, len(backward), 4)
-        r.floor("%s label/jump-table users" % tagname, len(label_users), 15)
+        r.floor("%s label/jump-table users" % tagname, len(label_users), 14)
         r.observe("%s: resolve_jumps table %s; backward emitters %s; %d label users" % (
             tagname, sorted(table.items()), sorted(backward), len(label_users)))
 
@@ -752,6 +796,7 @@ def run_r3(chk, sides):
     only_rs = sorted(set(a) - set(b))
     only_dr = sorted(set(b) - set(a))
     compared = 0
+    cap = Capped(r)
     for nm in common:
         fa, fb = a[nm], b[nm]
         pa, ea = rs.live_paths(fa)
@@ -765,7 +810,7 @@ def run_r3(chk, sides):
         compared += 1
         r.instance(nm, nontrivial=any(x[0] or x[1] for x in ta), sample={"method": nm, "rust_paths": len(pa), "dora_paths": len(pb)})
         if ta != tb:
-            r.violation("%s:signature" % key, "operand kinds differ: Rust %s vs Dora %s" % (fa.params, fb.params), fb.where)
+            cap.violation("%s:signature" % key, "operand kinds differ: Rust %s vs Dora %s" % (fa.params, fb.params), fb.where)
             continue
         na = {norm_path(p, fa, shared) for p in pa}
         nb = {norm_path(p, fb, shared) for p in pb}
@@ -779,7 +824,8 @@ def run_r3(chk, sides):
             nm, field,
             ("[%s] %s" % (r_facts(only_a[0]), r_path(only_a[0]))) if only_a else "-",
             ("[%s] %s" % (r_facts(only_b[0]), r_path(only_b[0]))) if only_b else "-")
-        r.violation("%s:%s" % (key, field), msg, fb.where)
+        cap.violation("%s:%s" % (key, field), msg, fb.where)
+    cap.flush()
     r.floor("methods present in both assemblers and compared", compared, 198)
     if only_rs:
         r.observe("Rust only (%d): %s" % (len(only_rs), " ".join(only_rs)))
@@ -802,6 +848,7 @@ def run_r4(chk, sides):
     r = chk.rule("C07.R4", "Address: rex bits come from the registers whose low bits are stored; constructors add a SIB byte "
                            "exactly when rm=100 (rsp/r12), never use mod=00 with an rbp/r13 base, and agree Rust↔Dora")
     norm_ctor = {}
+    asserts = {}
     for side in sides:
         P = side.P
         tagname = {"rs": "Rust", "dora": "Dora"}[side.tag]
@@ -961,6 +1008,9 @@ def run_r4(chk, sides):
                     nf.add((rename(strip_opq(e), pos), pol))
                 nc = tuple((c[0], tuple(rename(strip_opq(desc(a)), pos) for a in c[1])) for c in calls)
                 normed.add((frozenset(nf), nc))
+                for e in p.events:
+                    if e[0] == "assert" and mentions_operand(e[1]):
+                        asserts.setdefault(fn.name, {}).setdefault(side.tag, set()).add(r_bool(rename(e[1], {})))
             norm_ctor.setdefault(fn.name, {})[side.tag] = (normed, fn)
         r.floor("%s Address constructors" % tagname, n_ctor, 4)
     for nm, bytag in sorted(norm_ctor.items()):
@@ -968,6 +1018,10 @@ def run_r4(chk, sides):
             r.observe("Address::%s exists only in %s" % (nm, "/".join(bytag)))
             continue
         (na, fa), (nb, fb) = bytag["rs"], bytag["dora"]
+        aa, ab = asserts.get(nm, {}).get("rs", set()), asserts.get(nm, {}).get("dora", set())
+        if aa != ab:
+            r.observe("Address::%s register preconditions differ (not a violation): Rust-only asserts {%s}, Dora-only {%s}"
+                      % (nm, ", ".join(sorted(aa - ab)), ", ".join(sorted(ab - aa))))
         r.instance("sibling:Address::%s" % nm, sample={"ctor": nm, "paths": len(na)})
         if na != nb:
             da = sorted(repr(x) for x in na - nb)
